@@ -16,12 +16,12 @@ import (
 )
 
 type canon struct {
-	name    string
-	entries []*chain.Entry             // entries[n] = canonical block n of this variant
-	bc      [2]*blockchain.Blockchain  // legacy, new state backend
-	dbs     [2]*memory.Database
-	moves   string
-	forIndex bool // also used for PreConfirmedStateBeforeIndexAt reads
+	name     string
+	entries  []*chain.Entry            // entries[n] = canonical block n of this variant
+	bc       [2]*blockchain.Blockchain // legacy, new state backend
+	dbs      [2]*memory.Database
+	moves    string
+	forIndex int // 1/2: also used for PreConfirmedStateBeforeIndexAt reads on the legacy/new backend
 }
 
 func (c *canon) height() uint64 { return uint64(len(c.entries) - 1) }
@@ -63,12 +63,17 @@ func buildMain() []*chain.Entry {
 func buildCanons() ([]*canon, error) {
 	mainChain := buildMain()
 	hist := []string{"ss", "sss", "ssss", "sssss", "ssssss", // straight: heights 1..5
-		"ssssr", "sssssr", "ssssssr", // reached through a revert: heights 2,3,4
-		"ssssra", "sssssra", // fork re-stored after a revert: heights 3,4 with the alternative block
-		"sssssrr"} // two reverts: height 2
+		"ssssr", "sssssr", // reached through a revert: heights 2,3
+		"ssssra", "sssssra"} // fork re-stored after a revert: heights 3,4 with the alternative block
 	var out []*canon
 	for _, h := range hist {
-		c := &canon{name: h, moves: h, forIndex: h == "ssssss" || h == "sssssra"}
+		c := &canon{name: h, moves: h}
+		switch h {
+		case "ssssss":
+			c.forIndex = 1
+		case "sssssra":
+			c.forIndex = 2
+		}
 		for nb := 0; nb < 2; nb++ {
 			d := memory.New()
 			bc := chain.NewNode(d, nb == 1)
